@@ -61,6 +61,12 @@ GRestart ==
      LET g == r % 2 = 1  lz == (r \div 2) % 2 = 1  d == DmgNames[(r \div 4) + 1] IN
      RestartL(g, lz, [b \in Ids |-> d], d)
 
+\* restart with one unreadable blob file (the victim is reported in the `k` field)
+GRestartCorrupt ==
+  On("restart_corrupt") /\ \E g \in BOOLEAN, lz \in BOOLEAN, v \in Ids :
+     /\ RestartCorrupt(g, lz, v)
+
+
 \* order-sensitive hash of the action sequence, for sampling inside TLC
 ACode(x) == Len(x.a) * 53 + x.k * 13 + x.ts * 7 + x.m * 5 + x.f * 3 + Len(x.s)
 
@@ -68,7 +74,7 @@ ACode(x) == Len(x.a) * 53 + x.k * 13 + x.ts * 7 + x.m * 5 + x.f * 3 + Len(x.s)
 \* evaluates the invariant on every successor before choosing one) exactly the chosen
 \* behaviour is printed.
 GStep == /\ Len(hist) < TotalLen /\ ~done
-         /\ (GData \/ GLife \/ GRestart)
+         /\ (GData \/ GLife \/ GRestart \/ GRestartCorrupt)
          /\ hist' = Append(hist, Step)
          /\ hh' = (hh * 31 + ACode(act')) % 1000003
          /\ UNCHANGED done
